@@ -26,12 +26,16 @@ static inline int spec_imax(int a, int b) { return a > b ? a : b; }
     U.fn("box3i_empty", ensures={"empty_iff_some_axis_inverted": "RET == " + CW("self->upper.$ < self->lower.$", sep=" || ")})
     U.fn("box3i_clamp", requires=[CW("self->lower.$ <= self->upper.$")], ensures={
         "clamp_componentwise_nearest": CW("RET.$ == (t->$ < self->lower.$ ? self->lower.$ : (t->$ > self->upper.$ ? self->upper.$ : t->$))")})
-    U.fn("box3i_touchingOrOverlapping", ensures={
-        "touching_iff_all_axes_overlap": "RET == " + CW("a->lower.$ <= b->upper.$ && b->lower.$ <= a->upper.$")})
+    # property statement: intersectionOf is empty exactly when disjoint() holds, which is exactly when
+    # touchingOrOverlapping() does not.  INTER_EMPTY is "max(lower) > min(upper) on some axis".
+    INTER_EMPTY = CW("spec_imax(a->lower.$, b->lower.$) > spec_imin(a->upper.$, b->upper.$)", sep=" || ")
     NE = lambda b: CW("%s->lower.$ <= %s->upper.$" % (b, b))
+    U.fn("box3i_touchingOrOverlapping", ensures={
+        "touching_iff_intersection_nonempty__nonempty_operands": "IMP(%s && %s, RET == !%s)" % (NE("a"), NE("b"), INTER_EMPTY),
+        "touching_iff_intersection_nonempty__empty_operand": "IMP(!%s || !%s, RET == 0)" % (NE("a"), NE("b"))})
     U.fn("box3i_disjoint", ensures={
-        "disjoint_iff_separated_nonempty": "IMP(%s && %s, RET == %s)" % (NE("a"), NE("b"), CW("a->upper.$ < b->lower.$ || b->upper.$ < a->lower.$", sep=" || ")),
-        "disjoint_when_an_operand_is_empty": "IMP(!%s || !%s, RET == 1)" % (NE("a"), NE("b"))})
+        "disjoint_iff_intersection_empty__nonempty_operands": "IMP(%s && %s, RET == %s)" % (NE("a"), NE("b"), INTER_EMPTY),
+        "disjoint_iff_intersection_empty__empty_operand": "IMP(!%s || !%s, RET == 1)" % (NE("a"), NE("b"))})
     U.fn("box3i_size", requires=[CW("(long)self->upper.$ - (long)self->lower.$ <= 2147483647l && (long)self->upper.$ - (long)self->lower.$ >= -2147483648l")],
          ensures={"size_is_upper_minus_lower": CW("RET.$ == self->upper.$ - self->lower.$")})
     # lemmas over the contracts (symbolic boxes and point)
@@ -69,6 +73,7 @@ static inline int spec_imax(int a, int b) { return a > b ? a : b; }
   } else {
     ASSERT(intersection_with_empty_is_empty, ei);
     ASSERT(disjoint_with_empty_operand, dj);
+    ASSERT(not_touching_with_empty_operand, !to);
   }
 """, uses=["box3i_empty", "box3i_intersectionOf", "box3i_disjoint", "box3i_touchingOrOverlapping"])
     U.lemma("L4_clamp_contained", [("box3i", "a"), ("vec3i", "t")], """
@@ -79,3 +84,11 @@ static inline int spec_imax(int a, int b) { return a > b ? a : b; }
   }
 """, uses=["box3i_empty", "box3i_clamp", "box3i_contains"])
     return [U]
+
+META = dict(
+    level="proof",
+    level_text="Every range_t/box_t function listed is extracted from /repo on each run and its contract (written from the property statement: closed-set membership, min/max lattice operations, emptiness) is enforced by CBMC for all 2^N operand values; the set-level clauses (intersection contains exactly the common points; extend is the smallest enclosing box with the empty box as identity; intersection-empty <=> disjoint <=> not touching; clamp lands inside) are lemmas proved from the callee contracts for a symbolic point and symbolic boxes, so faces, edges, corners and empty operands are all covered. Bit-precise, no bound.",
+    level_note="Trusted: clang AST + cxx2c extractor + prelude models of std::min/max; CBMC. Integer instantiations are exact; float instantiations assume no NaN; 'within rounding' clauses (xfmBounds, intersectRayBox, center/area/volume over floats) are decided over the reals by z3 (machine arithmetic treated as mathematical) or listed unverified.",
+    assumptions=["no NaN in float boxes/points", "signed element arithmetic in size() does not overflow (precondition)"],
+    unverified=["fromString", "operator<< streaming of ranges"],
+)
